@@ -607,8 +607,10 @@ class CmdHarness(object):
                 if isinstance(val, bool) and self.stale_mode:
                     self.on_cmd[name] = txt
                 elif isinstance(val, bool):
-                    # both spellings main.py accepts: true/false and True/False
-                    txt = str(val) if e.branch(z3.Bool("capital_" + name)) else str(val).lower()
+                    # the spellings of a boolean a YAML file may use for the same field: true/false, True/False, yes/no, on/off
+                    sp = z3.Int("spelling_" + name)
+                    e.assume(z3.And(sp >= 0, sp < 4))
+                    txt = (["true", "True", "yes", "on"] if val else ["false", "False", "no", "off"])[e.choose(sp)]
                     self.on_cmd[name] = txt
                 cmd.append("%s=%s" % (name, txt))
                 if self.stale_mode and e.branch(z3.Bool("stale_" + name)):
